@@ -155,9 +155,17 @@ def c17(tier):
         if r["capped"]:
             res.exhaustive = False
             res.outcome("capped")
+        nondet = [e for e in r["errors"] if "same schedule" in e]
         for e in r["errors"]:
-            res.machinery_error("%s: %s" % (lab, e))
-        if r["distinct"] != 1 and not r["errors"]:
+            if e not in nondet:
+                res.machinery_error("%s: %s" % (lab, e))
+        if nondet:
+            # the same declaration under the SAME iteration orders expanded differently within one process: per-process / per-instance
+            # state outside the seam (e.g. a std HashMap with its own RandomState) reaches the output
+            res.violation({"kind": "expansion-differs-under-identical-schedule", "declaration": text[:300]},
+                          {"note": nondet[0], "declaration_full": text, "distinct_expansions": r["distinct"]},
+                          {"repro.rs": "// expanding this declaration twice in one process gives different code:\n// %s\nfn main() {}\n" % text.replace("\n", " ")})
+        elif r["distinct"] != 1 and not r["errors"]:
             res.violation({"kind": "expansion-depends-on-map-iteration-order", "declaration": text[:300]},
                           {"distinct_expansions": r["distinct"], "schedules_and_texts": r["outcomes"][:2], "declaration_full": text},
                           {"repro.rs": "// two iteration orders of the parser's maps give different expansions for:\n// %s\n// schedules: %s\nfn main() {}\n" % (
@@ -251,6 +259,21 @@ def c18(tier):
                 for cs, cfg in cfgs:
                     subs.append(Subj("v%04d_p%02d_%s_%s" % (si, pi, r, cs), d, cfg, args=a, sweep_full=False,
                                      bounds=dict(x1_depth=2, x2_extra=2, x2_cap=6, range_x1_depth=1, range_x2_extra=1)))
+    # large value sets (index arithmetic beyond 8 bits) under every repr that can hold them, one scrambled order + ascending
+    big_sets = [list(range(0, 300)), [x for x in range(0, 303) if x not in (100, 101, 200)]]
+    if tier == "thorough":
+        big_sets.append(list(range(-150, 150)))
+    for bi, vals in enumerate(big_sets):
+        reprs = [r for r in admissible_reprs(vals) if tier == "thorough" or r in ("i16", "u16", "i32", "u64")]
+        lo_all, hi_all = max(rmin(r) for r in reprs), min(rmax(r) for r in reprs)
+        args = sorted(set(x for v in (vals[0], vals[-1], vals[len(vals) // 2]) for x in range(v - 2, v + 3) if lo_all <= x <= hi_all))
+        for oi, order in enumerate((vals, vals[150:] + vals[:150][::-1])):
+            for r in reprs:
+                variants = [Variant("N%d" % (v - vals[0]), lit=str(v), rename=enums.AWKWARD[v % len(enums.AWKWARD)] if v % 7 == 3 else None) for v in order]
+                d = EnumDecl(r, variants, tag={"family": "S-big", "n": len(vals)})
+                for cs, cfg in cfgs:
+                    subs.append(Subj("w%04d_p%02d_%s_%s" % (bi, oi, r, cs), d, cfg, args=args, sweep_full=False, weight=80,
+                                     bounds=dict(x1_depth=1, x2_extra=0, x2_cap=2, range_x1_depth=1, range_x2_extra=0, range_pair_step=997)))
     merged = explore(res, "%s/c18" % tier, subs)
 
     def group(s):
@@ -332,9 +355,17 @@ def c16(tier):
     res = Result("C16", tier, "finite menu of hostile program scopes (no_std, no_implicit_prelude, every prelude/core name shadowed singly and all at once in three guises) x "
                                "configuration class cover: compiled and run with the real derive, transcripts compared with the plain scope")
     # the class cover is computed on the thinned space in both tiers (C09 thorough explores the full space)
-    spaces = run_space(res, "quick")
+    spaces = run_space(res, "quick", soft=True)
     covers = {k: sorted(cover(sp, ("closure",))) for k, sp in spaces.items()}
-    enums_ = [make_decl("i8", [4, 6, 3, 5], salt=2), make_decl("i8", [-5, 3, -10, -4], salt=5)]
+    # whatever E1 could not split is covered by a fixed configuration list (every feature alone in every mode + the full sets)
+    for k in list(covers):
+        g = (k == "g")
+        extra = [c for c in catalogue.small_configs(1, g, explicit_auto=True) if c.feats]
+        extra += [Config([("iter", {"mode": m}), "range"]) for m in (["range"] if g else []) + ["next_and_back", "table"]]
+        covers[k] = covers[k] + ["CFG:%d" % i for i in range(len(extra))]
+        covers[k + ":extra"] = extra
+    enums_ = [make_decl("i8", [4, 6, 3, 5], salt=2), make_decl("i8", [-5, 3, -10, -4], salt=5),
+              make_decl("u8", [1, 2, 3], salt=1), make_decl("u16", [7, 300, 1, 8], salt=4)]
     if tier == "thorough":
         enums_ += [make_decl("u64", [9, 1, 2], salt=3), make_decl("i64", [enums.I64_MIN, -1, 0, enums.I64_MAX], salt=7),
                    make_decl("u16", [0, 1, 2, 700, 701, 65535], salt=9), make_decl("usize", [7], salt=1)]
@@ -344,7 +375,9 @@ def c16(tier):
     nostd_mods = []     # (sid, module text)
     nostd_cases = []
     for ei, d in enumerate(enums_):
-        cfgs = [e1.cfg_from_text(t, zz=False) for t in covers[klass(d)]]
+        cfgs = [covers[klass(d) + ":extra"][int(t[4:])] if t.startswith("CFG:") else e1.cfg_from_text(t, zz=False) for t in covers[klass(d)]]
+        seen_cfg = set()
+        cfgs = [c for c in cfgs if not (c.key() in seen_cfg or seen_cfg.add(c.key()))]
         for ci, cfg in enumerate(cfgs):
             for si, (lab, inner, items, nostd) in enumerate(scopes):
                 sid = "e%d_c%03d_s%02d" % (ei, ci, si)
@@ -384,7 +417,7 @@ def c16(tier):
         return p[0] + "_" + p[1]     # (enum, configuration)
     compare_transcripts(res, merged, subs, group, "scope-dependent-behaviour")
     res.extra["scopes"] = [s[0] for s in scopes] + ["%d single-name shadows" % len(singles)]
-    res.extra["cover_sizes"] = {k: len(v) for k, v in covers.items()}
+    res.extra["cover_sizes"] = {k: len(v) for k, v in covers.items() if not k.endswith(":extra")}
     res.rule = ("states = (scope, configuration, enum) subjects' explorer states + no_std modules judged by rustc; every subject must compile and give the "
                 "same per-item transcripts as the same configuration in the plain scope; non-trivial as in C01-C08")
     res.bounds = {"shadowed_names": len(TYPE_NAMES) + len(VALUE_NAMES), "macro_names": len(MACRO_NAMES), "guises": 3}
